@@ -27,6 +27,8 @@ def gen_history(rng, grammar, switches=False):
     def new_name():
         nonlocal names
         names += 1
+        if rng.chance(1, 12):
+            return 0                  # the empty comm (prctl(PR_SET_NAME, "")): a legal name like any other
         return rng.range(1, 6) if rng.chance(1, 3) else 10 + names
 
     nrec = rng.range(8, 90)
@@ -160,7 +162,7 @@ def _to_perf(recs, shuffle_rng=None, origin=ORIGIN):
         elif k == "exit":
             out.append((r[3], P.exit_(r[1], r[1], r[2], r[2], r[3])))
         elif k == "comm":
-            out.append((r[5], P.comm(r[1], r[2], "nm%d" % r[3], r[5], r[4])))
+            out.append((r[5], P.comm(r[1], r[2], ("nm%d" % r[3]) if r[3] else "", r[5], r[4])))
         elif k == "sample":
             out.append((r[3], P.sample(r[1], r[2], r[3], 0x401160, None)))
         elif k == "mmap":
@@ -268,6 +270,8 @@ def coq_records(recs):
 
 
 def _pname(s):
+    if s == "":
+        return "(NGiven 0)"
     m = re.fullmatch(r"nm(\d+)", s)
     if m:
         return "(NGiven %s)" % m.group(1)
@@ -280,6 +284,8 @@ def _pname(s):
 def _tname(e):
     if e["main"]:
         return "(TNProc %s)" % _pname(e["tname"])
+    if e["tname"] == "":
+        return "(TNGiven 0)"
     m = re.fullmatch(r"nm(\d+)", e["tname"])
     if m:
         return "(TNGiven %s)" % m.group(1)
